@@ -4,6 +4,7 @@ package main
 
 import (
 	"fmt"
+	"os"
 	"go/types"
 	"sort"
 	"strings"
@@ -881,6 +882,9 @@ func (ex *Exec) tryEvalClause(cur, old *State, c *Clause, vars map[string]*Val, 
 		if r := recover(); r != nil {
 			if se, ok := r.(specErr); ok {
 				if strings.HasPrefix(se.msg, "unknown identifier") {
+					if debugLoops {
+						fmt.Fprintf(os.Stderr, "SKIP clause %s at call site: %s\n", c.Label, se.msg)
+					}
 					res = nil
 					return
 				}
